@@ -53,9 +53,17 @@ RULE = ("cases = store(sources, targets, regions, lock, compute, return_stored, 
         "trips (axis, dtype, chunks, mmap_mode). non-trivial = some source axis has >= 2 chunks; distinct = distinct "
         "case description.")
 ASSUMPTIONS = ["the MonitoredTarget bookkeeping lock and logical clock are correct", "NumPy assignment semantics define a write"]
-BUDGET = {"quick": 60, "thorough": 540}
-FLOORS = {"quick": {"evaluations": 1, "distinct_nontrivial": 1, "counters": {"targets_checked": 1}, "max_skipped_fraction": 0.3},
-          "thorough": {"evaluations": 1, "distinct_nontrivial": 1, "counters": {"targets_checked": 1}, "max_skipped_fraction": 0.3}}
+BUDGET = {"quick": 90, "thorough": 560}
+FLOORS = {"quick": {"evaluations": 1100, "distinct_nontrivial": 700,
+                    "counters": {"targets_checked": 1400, "locked_histories_checked": 420, "overlap_seen_without_lock": 100,
+                                 "npy_roundtrips": 160, "return_stored_checked": 280, "deferred_stores": 320,
+                                 "targets_written_by_several_threads": 400},
+                    "sets": {"store_config": 100}, "max_skipped_fraction": 0.15},
+          "thorough": {"evaluations": 7000, "distinct_nontrivial": 4400,
+                       "counters": {"targets_checked": 9000, "locked_histories_checked": 2700, "overlap_seen_without_lock": 600,
+                                    "npy_roundtrips": 1000, "return_stored_checked": 1800, "deferred_stores": 2000,
+                                    "targets_written_by_several_threads": 2500},
+                       "sets": {"store_config": 150}, "max_skipped_fraction": 0.15}}
 EXHAUSTIVE_SPACE = None
 CLAIM = ("Every generated da.store call ran on the real dask with monitored targets: each region element was written exactly "
          "once with the source value, nothing else was touched, locked stores never overlapped on a target, deferred stores "
@@ -151,7 +159,7 @@ def _region(rng, shape, kind):
 
 def cases(tier, seed):
     rng = random.Random(seed * 4099 + 29)
-    n = 2500 if tier == "quick" else 40000
+    n = 2500 if tier == "quick" else 16000
     for i in range(n):
         if rng.random() < 0.15:
             shape = A.rand_shape(rng, maxnd=3, maxlen=6, minnd=1)
@@ -232,17 +240,13 @@ def run_case(case, ctx):
             _run_store(case, ctx)
 
 
+_RK = {"none": "no-region", "exact": "region", "inside": "region", "step": "region-step", "none-ends": "region-none-ends",
+       "negative": "region-negative"}
+
+
 def _feat(case):
-    f = []
-    kinds = {s["rk"] for s in case["srcs"]}
-    for k in ("step", "negative", "none-ends"):
-        if k in kinds:
-            f.append("region-" + k)
-    if kinds <= {"none"}:
-        f.append("no-region")
-    if case["variant"] != "plain":
-        f.append(case["variant"])
-    return "&".join(f) if f else "region"
+    """Case-level feature (exceptions, deferred compute): only whether explicit regions are involved."""
+    return "no-region" if all(s["region"] is None for s in case["srcs"]) else "regions"
 
 
 def _run_store(case, ctx):
@@ -335,13 +339,15 @@ def _run_store(case, ctx):
             for j, (lv, x, t) in enumerate(zip(loaded, datas, targets)):
                 m = compare_arrays(lv, x.astype(t.dtype), exact=True)
                 if m:
-                    ctx.violation("store:return_stored:%s:%s" % (feat, m[0]), "source %d: %s" % (j, m[1]))
+                    ctx.violation("store:return_stored:%s:%s" % (_RK[srcs[j]["rk"]], m[0]), "source %d: %s" % (j, m[1]),
+                                  compute=case["compute"], variant=case["variant"])
     # ---- write history -----------------------------------------------------------------------------
     for t in distinct_targets:
         ctx.count("targets_checked")
         exp_count = np.zeros(t.shape, np.int32)
         exp_data = t.data.copy()
         mine = [(x, r) for x, r, u in zip(datas, regions, targets) if u is t]
+        feat = [_RK[s_["rk"]] for s_, u in zip(srcs, targets) if u is t][0] + ("&two-sources-one-target" if len(mine) > 1 else "")
         for x, r in mine:
             key = r if r is not None else tuple(slice(None) for _ in t.shape)
             try:
